@@ -57,7 +57,8 @@ def floors(tier):
           'ev:rest:spring': 8 * (1 if tier == 'quick' else 10),
           'ev:rest:positional': 8 * (1 if tier == 'quick' else 10),
           'momentum_models_with_actuators': 6, 'momentum_models_with_limits': 6,
-          'rest_models_three_hinge_limited': 6 * (1 if tier == 'quick' else 10)}
+          'rest_models_three_hinge_limited': 6 * (1 if tier == 'quick' else 10),
+          'momentum_models_with_inertia_scale': 8}
 
 
 def total_momentum(mj, pos, rot, ang, vel):
@@ -149,6 +150,12 @@ def run(job, mon):
           b['joints'] = []
         names |= {j['name'] for j in b['joints']}
       spec['acts'] = [a for a in spec['acts'] if a['joint'] in names]
+      if c % 2:
+        # the inertia scaling used by several bundled robots (mass scaling
+        # stays at its default 0, so masses are the true ones)
+        spec['custom_numeric'] = {
+            'spring_inertia_scale': [float(rng.choice([0.5, 1.0]))]}
+        mon.count('momentum_models_with_inertia_scale')
       xml = gen.to_xml(spec)
       sys_ = phys.load(xml)
       mj = sys_.mj_model
